@@ -122,7 +122,7 @@ def finding_matches(entry, prop, oid, meta):
 # a bounded module may also serve another property with a SUBSET of its clauses (the mechanism that property rests on)
 EXTRA_BOUNDED = {
     'c06_csv': {'C07': ['future-rows-irrelevant', 'missing-cell-ffill', 'value-at-latest-observation', 'open-close-boundaries',
-                        'row-order-independent', 'no-bar-before-t-gives-nan', 'cache-transparent'],
+                        'row-order-independent', 'no-bar-before-t-gives-nan', 'cache-transparent', 'instant-not-wall-clock'],
                 'C18': ['cache-transparent', 'row-order-independent']},
     # the session module also decides the part of C13 that only a session can show: every scheduled instant is acted upon
     'c14_session': {'C13': ['rebalances-exactly-scheduled-after-burn-in', 'later-session-in-the-same-process-unaffected']},
